@@ -477,7 +477,7 @@ pub mod canon {
         Expr::Unary(syn::ExprUnary { attrs: vec![], op: UnOp::Not(Default::default()), expr: Box::new(paren(peel(e).clone())) })
     }
 
-    struct Logic;
+    pub struct Logic;
     impl VisitMut for Logic {
         fn visit_expr_mut(&mut self, e: &mut Expr) {
             syn::visit_mut::visit_expr_mut(self, e);
@@ -881,10 +881,15 @@ fn c07facts(repo: &Path) -> Result<String, String> {
     {
         let q = norm(&find::arm_for(&em[0], "QuestionMark")?.body);
         let global_option = "ResolvedName{scope:ScopeRef::GLOBAL,ident:\"Option\".into()";
-        let try_needs_return = q.contains("letSome(ret_ty)=&ctx.function_return_typeelse{returnErr(");
-        let try_needs_name = q.contains("letType::Name(type_name)=self.type_info.resolve(ret_ty)else{returnErr(");
+        // (structure from the alpha-renamed call skeleton: a renamed or inlined local does not change it;
+        // the spelling of the identifier from the token text, the skeleton writes every string literal STR)
+        let qe = arms::events_of_expr_arm(&expr_rs, "QuestionMark")?;
+        let try_needs_return = arms::has_seq(&qe, &["letelse(Some($)=ctx.function_return_type)", "else", "return", "error_simple"]);
+        let try_needs_name = arms::has_seq(&qe, &["letelse(Type::Name($)=self.type_info.resolve($))", "ti.resolve($)", "else", "return", "error_simple"]);
         let try_ident = q.contains("\"Option\"");
-        let try_scope = q.contains(&format!("if(type_name.name!={global_option},}}){{returnErr(")) || q.contains(&format!("iftype_name.name!={global_option},}}{{returnErr("));
+        let try_scope = q.contains(global_option)
+            && (arms::has_seq(&qe, &["if(ResolvedName{scope:ScopeRef::GLOBAL,ident:STR.into()}!=$.name)", "return", "error_simple"])
+                || arms::has_seq(&qe, &["if($.name!=ResolvedName{scope:ScopeRef::GLOBAL,ident:STR.into()})", "return", "error_simple"]));
         let global_list = "letlist_name=ResolvedName{scope:ScopeRef::GLOBAL,ident:\"List\".into(),};";
         let concat_ident = add.contains("\"List\"");
         let concat_scope = add.contains("ifletType::Name(n)=resolved{") && add.contains(global_list) && add.contains("ifn.name==list_name{");
@@ -901,11 +906,13 @@ fn c07facts(repo: &Path) -> Result<String, String> {
         if std::env::var("C07_EXTRACT_DEBUG").is_ok() {
             eprintln!("QuestionMark: {q}\nFString: {fs}\nresolve_obligations: {ro}");
         }
-        let arity = ro.contains("letmutcorrect=true;correct&=sig.parameter_types.len()==parameter_types.len();");
-        let params = ro.contains("for(a,b)insig.parameter_types.iter().zip(&parameter_types){correct&=self.unify(a,b,id,None).is_ok();}");
-        let ret = ro.contains("correct&=self.unify(&sig.return_type,&return_type,id,None).is_ok();");
-        let rejects = ro.contains("if!correct{returnErr(self.error_simple(");
-        let missing = ro.contains("letSome(f)=self.get_method(&receiver,&ident)else{returnErr(self.error_no_method_on_type(&receiver,&ident));};");
+        let re = arms::events_of_fn(&mod_rs, "resolve_obligations")?;
+        let _ = &ro;
+        let arity = re.iter().any(|e| e == "$&=$.len()==$.parameter_types.len()" || e == "$&=$.parameter_types.len()==$.len()");
+        let params = arms::has_seq(&re, &["for(($,$)<-$.parameter_types.iter().zip($))", "&=", "unify($,$,$)"]);
+        let ret = arms::has_seq(&re, &["&=", "unify($.return_type,$,$)"]);
+        let rejects = arms::has_seq(&re, &["if(!$)", "return", "error_simple"]);
+        let missing = arms::has_seq(&re, &["letelse(Some($)=self.get_method($,$))", "get_method($,$)", "else", "return", "error_no_method_on_type"]);
         out.push_str(&format!(
             "\n/-- an f-string part pushes the obligation `to_string : fn(receiver) -> String` -/\ndef fstringAsksUnaryToString : Bool := {}\n/-- `resolve_obligations`: a missing method is an error; the found signature is compared with the required one by number of parameters, pairwise unification of the parameters, unification of the return types; a signature that is not `correct` is an error -/\ndef oblMissingMethodIsError : Bool := {}\ndef oblChecksArity : Bool := {}\ndef oblUnifiesParams : Bool := {}\ndef oblUnifiesReturn : Bool := {}\ndef oblRejectsIncorrect : Bool := {}\n",
             b(pushes_unary), b(missing), b(arity), b(params), b(ret), b(rejects)
@@ -1706,6 +1713,8 @@ mod arms {
         let mut body = super::canon::expr(body);
         let mut r = Renamer::new();
         r.visit_expr_mut(&mut body);
+        // (operands of `==` / `!=` ordered once more, now by their alpha-renamed text: the order must not depend on how a local is called)
+        super::canon::Logic.visit_expr_mut(&mut body);
         let mut w = Walker { ev: vec![], id_locals: &r.id_locals, elide: None };
         w.value(&body);
         w.ev
@@ -1716,6 +1725,7 @@ mod arms {
         let mut block = super::canon::block(block);
         let mut r = Renamer::new();
         r.visit_block_mut(&mut block);
+        super::canon::Logic.visit_block_mut(&mut block);
         let mut w = Walker { ev: vec![], id_locals: &r.id_locals, elide };
         w.visit_block(&block);
         w.ev
@@ -1816,6 +1826,39 @@ mod arms {
         }
         o.push_str("]\n\n");
         o
+    }
+
+    /// events of one function / of one arm of `TypeChecker::expr`, with every local written `$` (for feature
+    /// detection in `c07facts` that survives a renamed or inlined local)
+    pub fn anon(events: &[String]) -> Vec<String> {
+        events
+            .iter()
+            .map(|e| {
+                let mut o = String::new();
+                let mut it = e.chars().peekable();
+                while let Some(c) = it.next() {
+                    o.push(c);
+                    if c == '$' {
+                        while it.peek().is_some_and(|d| d.is_ascii_digit()) {
+                            it.next();
+                        }
+                    }
+                }
+                o
+            })
+            .collect()
+    }
+    pub fn events_of_fn(file: &syn::File, name: &str) -> Result<Vec<String>, String> {
+        Ok(anon(&fn_events(&find::func(file, name, Some("TypeChecker"))?.block, None)))
+    }
+    pub fn events_of_expr_arm(expr_rs: &syn::File, ctor: &str) -> Result<Vec<String>, String> {
+        let expr_fn = find::func(expr_rs, "expr", Some("TypeChecker"))?;
+        let arms = ctor_arms(&the_match(&expr_fn, "expr", "&expr.node")?, "exprArms", true)?;
+        arms.into_iter().find(|(k, _)| k == ctor).map(|(_, e)| anon(&e)).ok_or_else(|| format!("expr: no arm `{ctor}`"))
+    }
+    /// do the events contain this run of consecutive events?
+    pub fn has_seq(evs: &[String], ps: &[&str]) -> bool {
+        !ps.is_empty() && evs.windows(ps.len()).any(|w| w.iter().zip(ps).all(|(a, b)| a == b))
     }
 
     pub fn c07arms(repo: &Path) -> Result<String, String> {
